@@ -116,11 +116,23 @@ class AbsV:
 
 
 class AbsSeq:
-    """abstract immutable sequence: only its length (an Int term >= 0) is known; elements are opaque"""
-    __slots__ = ("n",)
+    """abstract immutable sequence: its length (an Int term >= 0) and, optionally, an element function k -> value;
+    without one the elements are opaque"""
+    __slots__ = ("n", "elem")
 
-    def __init__(self, n):
-        self.n = n
+    def __init__(self, n, elem=None):
+        self.n, self.elem = n, elem
+
+
+class SymDict:
+    """heap dict with symbolic integer keys: presence and value arrays (value -1 encodes None) plus its truthiness"""
+    __slots__ = ("present", "val", "nonempty")
+
+    def __init__(self, present, val, nonempty):
+        self.present, self.val, self.nonempty = present, val, nonempty
+
+    def clone(self):
+        return SymDict(self.present, self.val, self.nonempty)
 
 
 class FuncV:
@@ -173,13 +185,13 @@ class OpaqueV:
         self.kind = kind
 
 
-SORT_OF_TAG = {"int": T.I, "bool": T.B, "str": T.SI, "bytes": T.SI, "chunk": T.ChunkS, "atts": T.Atts,
+SORT_OF_TAG = {"optint": T.OptInt, "line": T.I, "optline": T.I, "int": T.I, "bool": T.B, "str": T.SI, "bytes": T.SI, "chunk": T.ChunkS, "atts": T.Atts,
                "fmtstr": T.FmtS, "item": T.ItemS, "cell": T.Cell}
 SEQ_OF_TAG = {"int": T.SI, "chunk": T.SCh, "fmtstr": T.SF, "item": T.SItem, "cell": T.SC}
 
 
 def is_int(v):
-    return (isinstance(v, int) and not isinstance(v, bool)) or (isinstance(v, Sym) and v.tag == "int")
+    return (isinstance(v, int) and not isinstance(v, bool)) or (isinstance(v, Sym) and v.tag in ("int", "optint"))
 
 
 def is_boolish(v):
@@ -189,6 +201,8 @@ def is_boolish(v):
 def int_term(v):
     if isinstance(v, Sym) and v.tag == "int":
         return v.t
+    if isinstance(v, Sym) and v.tag == "optint":
+        return T.OptInt.optv(v.t)       # callers establish that it is not None (exprs.binop / compare decide it)
     if isinstance(v, bool):
         return z3.IntVal(int(v))
     if isinstance(v, int):
